@@ -1,5 +1,5 @@
 """Which verification tasks serve which property, and the fixed lists reported in every evidence file."""
-TASK_MODULES = ["pyvc.tasks_layer1", "pyvc.tasks_c07", "pyvc.tasks_c16", "pyvc.tasks_c20", "pyvc.tasks_c13", "pyvc.tasks_c04", "pyvc.tasks_c01", "pyvc.tasks_c19"]
+TASK_MODULES = ["pyvc.tasks_layer1", "pyvc.tasks_c07", "pyvc.tasks_c16", "pyvc.tasks_c20", "pyvc.tasks_c13", "pyvc.tasks_c04", "pyvc.tasks_c01", "pyvc.tasks_c19", "pyvc.tasks_l2"]
 
 L1_ALL = ["layer1/Circuit." + m for m in ("type", "is_output", "fanin", "fanout", "nodes", "edges", "connect", "disconnect", "remove",
                                           "set_output", "set_type", "outputs", "inputs", "io", "startpoints", "endpoints", "uid", "add[default]", "add[uid]")]
@@ -26,7 +26,8 @@ def _c19_frame_tasks():
 
 TRUSTED_BASE = [
     "assumed contract of pysat (IDPool.id injective; CNF.append; Solver.solve sound and complete for the added clauses; get_model indexes every variable occurring in a clause) -- python-sat is absent, the shim is written to this contract",
-    "assumed contract of Circuit.add_subcircuit (contracts/layer2.py), bounded-checked by C06",
+    "contract of Circuit.add_subcircuit (contracts/layer2.py): proved on the body for calls with 0 or 1 connection (tasks layer2/*); ASSUMED for calls with >= 2 connections (bounded-checked by C06)",
+    "assumed contract of networkx.relabel_nodes(copy=True) (injective mapping obligation is generated at the call) and DiGraph.update",
     "meta-lemmas: M1, M2 (Lean-checked, /verif/lean), M5 (consistency is invariant under graph isomorphism), M6 (a valuation of the nodes extends to the parity auxiliaries by structural recursion)",
     "z3 5.1 (python API) / z3 4.8.12 / cvc5 1.0.3 as back ends",
     "pyvc itself (the VC generator written for this task: /verif/pyvc)",
@@ -40,7 +41,7 @@ ASSUMPTIONS = [
     "A5 partial correctness: termination is not proved",
     "A6 only the modelled exception classes arise from modelled operations (KeyError, ValueError, IndexError, NetworkXError)",
     "Python ints are mathematical integers (exact for Python)",
-    "node names are an uninterpreted sort; f-strings are uninterpreted functions constrained only by string facts that hold for all strings (injectivity of single-hole templates, disjointness of templates with incompatible literal prefixes/suffixes)",
+    "node names are an uninterpreted sort; f-strings are uninterpreted functions constrained only by string facts that hold for all strings (injectivity of single-hole templates, disjointness of templates with incompatible literal prefixes/suffixes, associativity of nesting a template that ends with a hole into one that starts with a hole); every such axiom is also discharged as a `strfact` obligation over the theory of strings (z3 seq / cvc5 --strings-exp), trusting only that an f-string of str values is their concatenation",
 ]
 EXTRACTION_DROPS = [
     "docstrings and comments",
@@ -52,3 +53,10 @@ TASK_FILES = {"layer1": "circuitgraph/circuit.py", "C07": "circuitgraph/circuit.
 
 PROPERTY_TASKS["C19"] = PROPERTY_TASKS["C19"] + _c19_frame_tasks()
 TASK_FILES["C19"] = "circuitgraph/tx.py"
+
+L2_TASKS = ["layer2/add_subcircuit[no connections]", "layer2/add_subcircuit[no connections,literal name]", "layer2/add_subcircuit[no connections,strip_io=False]", "layer2/add_subcircuit[1 connection]"]
+PROPERTY_TASKS["C04"] = PROPERTY_TASKS["C04"] + L2_TASKS[:2]
+L2_BB = ["layer2/add_blackbox[no connections]"]
+PROPERTY_TASKS["C06"] = L2_TASKS + L2_BB + ["layer1/Circuit.copy"]
+PROPERTY_TASKS["C07"] = PROPERTY_TASKS["C07"] + L2_TASKS + L2_BB + ["C07/add_blackbox", "C07/add_subcircuit[no connections]", "C07/add_subcircuit[1 connection]"]
+TASK_FILES["layer2"] = "circuitgraph/circuit.py"
